@@ -107,6 +107,12 @@ def c21(facts, rep):
                     add("R21b", "search predicate is stored.source_timestamp > new.source_timestamp", False,
                         "predicate is `stored %s new`: %s" % (op, "equal stamps are reordered" if op == "Ge" else "wrong direction"), cb.line)
         add("R21b", "position search compares source timestamps (first stored sample newer than the new one)", okp, "no such predicate", t.line)
+        # R21d: the position is searched in the list as it is at insertion time: no element is removed between the search and the insert
+        srch = [x[3] for x in E.walk(e) if x[0] == "call" and x[1].endswith(("Iterator::position", "partition_point")) and isinstance(x[3], int)]
+        rem_blocks = [rb for rb, _ in removals(fc)]
+        stale = [rb for sb in srch for rb in rem_blocks if rb in fc.mir.reachable(sb) and bb in fc.mir.reachable(rb)]
+        add("R21d", "insert position is searched after the KEEP_LAST eviction (no removal between search and insert)", bool(srch) and not stale,
+            "a sample is removed from sample_list after the insert position was computed: the remembered index is one too large when the evicted sample sat in front of it", t.line)
     for bb, t in psh:
         add("R21c", "plain append only on the ByReceptionTimestamp arm", fc.only_through([bb], g_rcp), "push reachable on the BySourceTimestamp arm", t.line)
     return n, len(psh)
@@ -250,4 +256,17 @@ def c19_reader(facts, rep):
         found = fc.reach_avoiding([bb], guard)
         add("R19b", "Rejected(%s) only when the %s test is positive" % (rname, lim[0]), bb not in found,
             "rejection with this reason reachable without its own limit test; witness %s" % found.get(bb), s.line)
+    # R19c: the instances that count against max_instances are all instances with a stored sample, whatever its kind
+    nm = 0
+    for bb, t in fc.calls("Iterator::map"):
+        a0 = fc.arg(t, 0)
+        if not E.mentions_field(a0, "sample_list"):
+            continue
+        cbs = closure_bodies_in(facts, fc, fc.eb.call(t, bb, 0))
+        if not any(cb.mir.locals[0].endswith("InstanceHandle") for cb in cbs):
+            continue
+        nm += 1
+        add("R19c", "distinct instances are counted over every stored sample (no filter on the sample kind)", not E.mentions_call(a0, "Iterator::filter"),
+            "the instance count for max_instances skips some stored samples (%s): an instance holding only dispose / unregister samples no longer counts and a further instance is admitted" % fc.show(a0)[:120], t.line)
+    rep.floor("R19c", nm, 1, "distinct-instance enumerations over sample_list")
     return n, nr
